@@ -335,6 +335,19 @@ def same(a, b):
     return a["k"] == b["k"] and a["v"] == b["v"] and a["w"] == b["w"] and a["l"] == b["l"]
 
 
+# When a dict, the callers of a run keep one instance of every object they serialize and of every decoded
+# document they hand to DictDecoder, and pass that same instance on every call (set per run by the engines).
+SHARED_INPUTS = None
+
+
+def _input(key, make):
+    if SHARED_INPUTS is None:
+        return make()
+    if key not in SHARED_INPUTS:
+        SHARED_INPUTS[key] = make()
+    return SHARED_INPUTS[key]
+
+
 # ---------------------------------------------------------------- op builders
 def _resolve_clazz(key):
     from sim.pool.catalog import resolve_class
@@ -439,7 +452,7 @@ def op_ser_xml(objname, factory, writer, cfg, nsmap, needs, group):
         s = env.tool(tool)
         ns_map = NS_MAPS[nsmap]
         ns_map = dict(ns_map) if ns_map is not None else None
-        obj = factory()
+        obj = _input(("obj", objname), factory)
         if fault and fault.get("t") == "writer":
             w = SimWriter(raise_at=fault.get("raise_at"), raise_kind=fault.get("raise_kind", "enospc"))
             try:
@@ -456,7 +469,7 @@ def op_tree_ser(objname, factory, cfg, needs, group):
     tool = ("ts", cfg)
 
     def fn(env, fault):
-        return env.tool(tool).render(factory())
+        return env.tool(tool).render(_input(("obj", objname), factory))
 
     return Op(f"tree_ser:{objname}:{cfg}", "tree_ser", fn, tool, needs, (), group)
 
@@ -465,7 +478,7 @@ def op_ser_json(objname, factory, cfg, needs, group):
     tool = ("js", cfg)
 
     def fn(env, fault):
-        return env.tool(tool).render(factory())
+        return env.tool(tool).render(_input(("obj", objname), factory))
 
     return Op(f"ser_json:{objname}:{cfg}", "ser_json", fn, tool, needs, ("dump",) if cfg == "factory" else (), group)
 
@@ -474,7 +487,7 @@ def op_dict_encode(objname, factory, cfg, dfac, needs, group):
     tool = ("de", cfg, dfac)
 
     def fn(env, fault):
-        return env.tool(tool).encode(factory())
+        return env.tool(tool).encode(_input(("obj", objname), factory))
 
     return Op(f"dict_encode:{objname}:{cfg}:{dfac}", "dict_encode", fn, tool, needs, (), group)
 
@@ -483,7 +496,7 @@ def op_pycode(objname, factory, needs, group):
     tool = ("py",)
 
     def fn(env, fault):
-        return env.tool(tool).render(factory())
+        return env.tool(tool).render(_input(("obj", objname), factory))
 
     return Op(f"pycode:{objname}", "pycode", fn, tool, needs, (), group)
 
@@ -511,7 +524,7 @@ def op_dict_decode(docname, text, clazz_key, cfg, needs, group):
     tool = ("dd", cfg)
 
     def fn(env, fault):
-        return env.tool(tool).decode(json.loads(text), _resolve_clazz(clazz_key))
+        return env.tool(tool).decode(_input(("doc", docname), lambda: json.loads(text)), _resolve_clazz(clazz_key))
 
     return Op(f"dict_decode:{docname}:{cfg}", "dict_decode", fn, tool, needs, (), group, docname)
 
